@@ -23,7 +23,7 @@ use sozu_command_lib::{
     channel::Channel,
     config::{ConfigBuilder, FileConfig},
     proto::command::{
-        request::RequestType, ActivateListener, AddBackend, Cluster, ListenerType, LoadBalancingParams,
+        request::RequestType, ActivateListener, DeactivateListener, AddBackend, Cluster, ListenerType, LoadBalancingParams,
         Request, RequestUdpFrontend, ResponseStatus, ServerConfig, SoftStop, UdpAffinityKey, UdpClusterConfig,
         UdpListenerConfig, WorkerRequest, WorkerResponse,
     },
@@ -173,6 +173,7 @@ fn run(c: &Case, out: &mut Out) {
     // oracle state
     let (mut with_port, mut responses, mut requests, mut pp, mut max_flows) = (true, 0u32, 0u32, false, 0u32);
     let mut pp_every = false;
+    let mut bounced = false;
     // flow key -> (replies so far, requests so far); a key is the client address (4-tuple) or its IP (2-tuple)
     let mut live: HashMap<String, (u32, u32, usize, SocketAddr, i128, SocketAddr)> = HashMap::new(); // + backend index, upstream peer, owner client, its address
     let mut sent_by: HashMap<i128, Vec<Vec<u8>>> = HashMap::new();
@@ -267,7 +268,7 @@ fn run(c: &Case, out: &mut Out) {
                 // larger than max_rx_datagram_size (1500): dropped before any flow is allocated
                 let admitted = payload.len() <= 1500 && (existing || (live.len() as u32) < cap);
                 // wait for the datagram at some backend
-                let deadline = Instant::now() + if admitted { rt() } else { QUIET };
+                let deadline = Instant::now() + if admitted { if bounced { rt().min(Duration::from_millis(1500)) } else { rt() } } else { QUIET };
                 let mut hit: Option<(usize, Seen)> = None;
                 while Instant::now() < deadline && hit.is_none() {
                     for (bi, b) in backends.iter().enumerate() {
@@ -283,6 +284,7 @@ fn run(c: &Case, out: &mut Out) {
                 let total_new: usize = backends.iter().enumerate().map(|(bi, b)| b.seen.lock().unwrap().len() - before[bi]).sum();
                 let mut obs = vec![ts("send"), tn(ci), tbool(admitted)];
                 match (&hit, admitted) {
+                    (None, true) if bounced => out.viol("e2e-reactivated-listener-dead", &format!("client {ci}: after DeactivateListener + ActivateListener (both answered Ok) the UDP listener forwards nothing: datagram of an admissible flow (live={} cap={cap}) never reached a backend", live.len())),
                     (None, true) => out.viol("e2e-bounded", &format!("client {ci} ({me}): datagram of an admissible flow (live={} cap={cap}) never reached a backend", live.len())),
                     (Some((bi, _)), false) => out.viol("e2e-bounded", &format!("client {ci}: {} bytes forwarded to backend {bi} although the datagram is oversized or the flow table is full (live={} cap={cap})", payload.len(), live.len())),
                     _ => {}
@@ -368,6 +370,25 @@ fn run(c: &Case, out: &mut Out) {
                     live.clear();
                 }
                 out.obs(&[]);
+            }
+            "bounce" => {
+                // DeactivateListener then ActivateListener on the same worker: every flow is released
+                // (close_all_flows) and the listener must serve again
+                let faddr = front.unwrap();
+                let w = worker.as_mut().unwrap();
+                let ok1 = w.req(RequestType::DeactivateListener(DeactivateListener {
+                    address: faddr.into(),
+                    proxy: ListenerType::Udp.into(),
+                    to_scm: false,
+                }));
+                let ok2 = w.req(RequestType::ActivateListener(ActivateListener {
+                    address: faddr.into(),
+                    proxy: ListenerType::Udp.into(),
+                    from_scm: false,
+                }));
+                live.clear();
+                bounced = ok1 && ok2;
+                out.obs(&[ts("bounce"), tbool(ok1), tbool(ok2)]);
             }
             "recluster" => {
                 // cluster update that flips the affinity mode under live flows
